@@ -112,7 +112,8 @@ CHECKS["C17"] = dict(
     steps=[dict(name="forwarder", run="^TestForwarder$", quick=300, thorough=100000, shards_thorough=4),
            dict(name="fanin", run="^TestFanIn$", quick=200, thorough=60000, shards_thorough=4),
            dict(name="requeuer", run="^TestRequeuer$", quick=200, thorough=60000, shards_thorough=4),
-           dict(name="fanout", run="^TestFanOut$", quick=200, thorough=60000, shards_thorough=4)],
+           dict(name="fanout", run="^TestFanOut$", quick=200, thorough=60000, shards_thorough=3),
+           dict(name="fwdpub-concurrent", run="^TestForwarderPublisherConcurrent$", quick=300, thorough=60000, shards_thorough=1)],
 )
 
 CHECKS["C14"] = dict(
@@ -172,8 +173,8 @@ CHECKS["C10"] = dict(
     technique="stateful model-based testing (rapid state machine) of the Router lifecycle API over scripted subscribers, plus a forced schedule parking RunHandlers right after Started() closes; race detector",
     level_text="rapid drives random lifecycle programs (AddHandler before/after Run, Run, RunHandlers repeated and concurrent, Stop, context cancel, Close, probes) against a real Router and checks a model after every step: subscriptions per handler, Running() vs subscriptions, probe handling, Stop/Stopped usability, Run's return, second Run. The Started()->Stop() window is forced by parking the starter at a hook point.",
     level_note="Trusted: the lifecycle model in c10_test.go, scripted subscribers. Shutting down while a handler added after Run was never started is outside the property (documented need to call RunHandlers).",
-    steps=[dict(name="machine", run="^TestLifecycleMachine$", quick=300, thorough=72000, shards_thorough=12),
-           dict(name="forced-stop", run="^TestStopRightAfterStarted$", quick=100, thorough=60000, shards_thorough=4)],
+    steps=[dict(name="machine", run="^TestLifecycleMachine$", quick=300, thorough=480000, shards_thorough=12),
+           dict(name="forced-stop", run="^(TestStopRightAfterStarted|TestStopWithMessageInFlight|TestCloseDuringStartup)$", quick=100, thorough=20000, shards_thorough=4)],
 )
 
 CHECKS["C18"] = dict(
@@ -181,7 +182,8 @@ CHECKS["C18"] = dict(
     technique="property-based testing (rapid) of concurrent request-reply programs: real command bus/processor/backend over a GoChannel reply topic, commands relayed through a scripted subscriber, reply publisher wrapped to sample settlement; listener termination checked before the caller drains",
     level_text="Generated programs of 1..32 concurrent callers with handler scripts (failures producing several replies through Nack redelivery), both AckCommandErrors settings, optional time-outs and caller behaviours that stop reading or cancel at different moments run against the real request-reply components; every received reply, every command settlement relative to its reply Publish, the finish hook per request, reply-channel closure and leftover listener goroutines are checked.",
     level_note="Trusted: the scripted command relay, the reply-publisher wrapper and the goroutine-dump based leak detection. The terminal time-out reply is exempt from the own-command rule.",
-    steps=[dict(name="requestreply", run="^TestRequestReply$", quick=150, thorough=90000, shards_thorough=16)],
+    steps=[dict(name="requestreply", run="^TestRequestReply$", quick=150, thorough=90000, shards_thorough=14),
+           dict(name="reply-publish-failure", run="^TestReplyPublishFailure$", quick=300, thorough=60000, shards_thorough=2)],
 )
 
 CHECKS["C01"] = dict(
